@@ -132,8 +132,8 @@ def k1(prog, ctx):
         bad = []
         for r in sorted(dep):
             base = r.split(".")[0]
-            if r in key_roots or base in {k for k in key_roots if "." not in k}:
-                continue
+            if r in key_roots or base in {k.split(".")[0] for k in key_roots if k.split(".")[0] not in ("self", owner)}:
+                continue      # same variable as the key is derived from (the key may be a projection of it, e.g. obj.id)
             if r.startswith(RUN_CONSTANTS) or base in ("params", "args"):
                 continue
             if base == owner or (owner == "self" and r.startswith("self.")):
